@@ -125,6 +125,9 @@ type Stmt struct {
 	Body   []Stmt `json:"body,omitempty"`
 	// Spare: pass the middleware slice with spare capacity (aliasing shortcut)
 	Spare bool `json:"spare,omitempty"`
+	// Via: how a route is registered: "" = r.GET(path, h, mw...), "any" = r.Any(path, h, mw...),
+	// "attach" = NewRoute(path, h).Use(mw...).AttachTo(r)  (middleware already on the route when it is added)
+	Via string `json:"via,omitempty"`
 }
 
 // RegRoute is what the model expects of one registered route.
